@@ -144,6 +144,9 @@ def fam_limits(nmin: int, nmax: int, *, batch: int = 2, tnames=('TA', 'TB', 'TC'
                 if 1 < n <= 3 and any(shape):
                     # every reference is a fresh equal instance (duplicates of limited-type tasks)
                     yield Config(spec=mk_spec(shape, types=types, dup=True), requested=req + ((0, True),), batch=batch, stutter=stutter)
+                if 1 < n <= 3 and not any(shape):
+                    # every requested task is a separately pickled copy (tasks returned by other tasks, loaded from files)
+                    yield Config(spec=spec, requested=tuple((i, 2) for i in range(n)), batch=batch, stutter=stutter)
                 if n > 1 and n <= 3:
                     # dependents ahead of their dependencies in the coordinator's pending order
                     yield Config(spec=spec, requested=tuple(reversed(req)), batch=batch, stutter=stutter)
